@@ -857,8 +857,14 @@ impl<'a, C: OrdColl> OrdSession<'a, C> {
                     self.apply(&OOp::Before { h }, 0);
                 }
             }
-            // full walks, with a step budget
-            let budget = stored.len() + 2;
+            self.walks();
+        }
+    }
+
+    /// full backward and forward walks over a set by neighbour steps, with a step budget
+    pub fn walks(&mut self) {
+        if C::IS_SET {
+            let budget = self.mine.len() + 2;
             if let Some(mut h) = self.handle_of(self.keys + 1) {
                 // backwards from the maximum
                 let mut first = h;
@@ -1060,6 +1066,8 @@ pub struct RandCfg {
     pub clears: bool,
     /// one in `clear_den` of the calls of the last group is a clear (default 5; small = clear churn)
     pub clear_den: u64,
+    /// sets: one call in `walk_den` is followed by full backward and forward walks (0 = never)
+    pub walk_den: u64,
 }
 
 /// seeded random in-contract histories with handles held across insertions
@@ -1082,6 +1090,10 @@ pub fn run_random<C: OrdColl>(tr: &mut Trace, cfg: &RandCfg) {
         }
         in_seg += 1;
         done += 1;
+        if C::IS_SET && cfg.walk_den > 0 && rng.chance(1, cfg.walk_den) {
+            s.walks();
+            done += s.mine.len() as u64 / 4;
+        }
         let k = rng.range(0, cfg.keys as i64 + 1) as i32;
         let arm = if cfg.inject && rng.chance(1, 5) { rng.range(1, 6) as u64 } else { 0 };
         match rng.range(0, 23) {
